@@ -94,3 +94,19 @@ Definition check_hms (c : dy * dy * dy * dy) : Z :=
       if in_pi_band v rq (tol_deg rq) && Qle_bool 0 rq then 0%Z else 1%Z
   | _, _, _, _ => 1%Z
   end.
+
+(* ------------------------------------------------------------------ the radian API over R
+   rad_to_dms: degrees = |radians| * radians2degrees (= 180 / PI), then as above; dms_to_rad multiplies by
+   degrees2radians (= PI / 180).  Not executable (floor of a real); tied to the code through the
+   correspondence with the bracket of pi (check_dms, api 1). *)
+From Coq Require Import Reals.
+Open Scope R_scope.
+Record dmsR := mkDmsR { rneg : bool; rdeg : Z; rmin : Z; rsec : R }.
+
+Definition rad_to_dmsR (r : R) : dmsR :=
+  let d := Rabs r * (180 / PI) in
+  let m := frac_part d * 60 in
+  mkDmsR (if Rlt_dec r 0 then true else false) (Int_part d) (Int_part m) (frac_part m * 60).
+
+Definition dms_to_radR (d : dmsR) : R :=
+  (if rneg d then -1 else 1) * (IZR (Z.abs (rdeg d)) + IZR (rmin d) * (1 / 60) + rsec d * (1 / 3600)) * (PI / 180).
